@@ -561,6 +561,30 @@ def run(ck):
         enc_case(("connect", 1, 32, 128, 1, bytes(n)), True, "enc:valid:sweep")
         enc_case(("dps", 0, 0, bytes([1]) * n, None), True, "enc:valid:sweep")
         enc_case(("snl", 1, 1, [(1, bytes([65]) * (n - 1))], []), True, "enc:valid:sweep")
+    # empty optional fields: b"" is "false" like None for SN/ECPK/RN in encode() AND in __len__();
+    # SDREQ names, payloads and parameter lists may be empty.  len must follow encode in every combination.
+    for d_, s_ in ((1, 32), (0, 0), (63, 63)):
+        for miu in (128, 200):
+            for rw in (0, 1, 2):
+                for sn in (b"", None, b"x"):
+                    enc_case(("connect", d_, s_, miu, rw, sn), sn != b"", "enc:empty-optional")
+    for ecpk in (b"", None, b"\x01", bytes(64)):
+        for rn in (b"", None, b"\x02", bytes(8)):
+            enc_case(("dps", 0, 0, ecpk, rn), ecpk != b"" and rn != b"", "enc:empty-optional")
+    for q in ([], [(1, b"")], [(1, b""), (2, b"")], [(0, b""), (255, b"urn:nfc:sn:snep")], [(7, b"a"), (8, b"")]):
+        for r in ([], [(1, 16)], [(0, 0), (255, 63)]):
+            enc_case(("snl", 1, 1, q, r), True, "enc:empty-optional")
+    enc_case(("ui", 1, 1, b""), True, "enc:empty-optional")
+    enc_case(("i", 1, 1, 0, 0, b""), True, "enc:empty-optional")
+    enc_case(("unknown", 11, 1, 1, b""), True, "enc:empty-optional")
+    enc_case(("pax", 0, 0, None, None, None, None, None), True, "enc:empty-optional")
+    enc_case(("agf", 0, 0, []), True, "enc:empty-optional")
+    enc_case(("agf", 0, 0, [("connect", 1, 32, 128, 1, b""), ("dps", 0, 0, b"", b""), ("snl", 1, 1, [(1, b"")], [])]),
+             False, "enc:empty-optional")
+    # ... and the decoded form of an empty name (SN TLV with L = 0) re-encodes consistently
+    for e in (bytes.fromhex("11200600"), bytes.fromhex("02800a000b00"), bytes.fromhex("024108010508010609020110"),
+              bytes.fromhex("0080" "0004" "11200600" "0006" "02800a000b00")):
+        dec_case(e, "dec:empty-optional")
     flush()
     for _ in range(60000 if T else 9000):
         desc = gen_valid(rng)
